@@ -21,9 +21,17 @@ RULE = ("(curve, secret key, message as bytes / hex text in lower, upper or mixe
         "signature. Distinct = distinct case.")
 
 
-def _key(curve, secret_hex):
+def _key(curve, secret_hex, form=None):
+    """form: how the secret reaches pytezos -- as the curve's scalar / seed, or (Ed25519) in the 64-byte `seed || public key` form,
+    raw or as its 98-character edsk spelling"""
     from pytezos.crypto.key import Key
-    return Key.from_secret_exponent(bytes.fromhex(secret_hex), curve.encode())
+    k = Key.from_secret_exponent(bytes.fromhex(secret_hex), curve.encode())
+    if curve == "ed" and form in ("ed64-raw", "ed64-text"):
+        pub = rc.derive_public("ed", bytes.fromhex(secret_hex))
+        full = bytes.fromhex(secret_hex) + pub
+        k2 = Key.from_secret_exponent(full, b"ed") if form == "ed64-raw" else Key.from_encoded_key(rc.tz_encode(full, "edsk"))
+        return k2
+    return k
 
 
 def _check_sig_instr(pk, sig, msg: bytes, case, what):
@@ -37,8 +45,13 @@ def _check_sig_instr(pk, sig, msg: bytes, case, what):
     return v == {"prim": "True"}
 
 
+SIG_AS_BYTES = [False]
+
+
 def _verify(key, sig, msg):
     try:
+        if SIG_AS_BYTES[0] and isinstance(sig, str):   # verify() takes the signature as text or as the same text in bytes
+            sig = sig.encode()
         return bool(key.verify(sig, msg)), None
     except ValueError as e:
         return False, e
@@ -47,9 +60,13 @@ def _verify(key, sig, msg):
 
 
 def oracle(case):
+    SIG_AS_BYTES[0] = bool(case.get("sig_bytes"))
     curve = case["curve"]
-    key = _key(curve, case["secret"])
-    pub = key.public_point
+    key = _key(curve, case["secret"], case.get("key_form"))
+    pub = rc.derive_public(curve, bytes.fromhex(case["secret"])) if curve != "BL" else key.public_point
+    if key.public_point != pub:
+        raise Violation("the key built from the %s form of an Ed25519 secret has public point %s, the secret's public key is %s" % (
+            case.get("key_form"), key.public_point.hex(), pub.hex()), case, "key-form:" + str(case.get("key_form")))
     pk = key.public_key()
     if "msg_hex_str" in case:
         msg_arg = case["msg_hex_str"]
@@ -191,7 +208,9 @@ def replay(case):
 def cases(draw, curves):
     curve = draw(st.sampled_from(curves))
     sec = draw(gen_keys.secret(curve))
-    case = {"curve": curve, "secret": sec.hex()}
+    case = {"curve": curve, "secret": sec.hex(), "sig_bytes": draw(st.integers(0, 2)) == 0}
+    if curve == "ed":
+        case["key_form"] = draw(st.sampled_from([None, None, "ed64-raw", "ed64-text"]))
     m = draw(st.one_of(st.binary(max_size=64), st.binary(min_size=65, max_size=512),
                        st.sampled_from([b"", b"\x00", b"\x03" + b"\x11" * 40])))
     form = draw(st.integers(0, 3))
